@@ -131,9 +131,25 @@ def run(ctx: Ctx):
             ctx.ob("R-C15-3", f"{origin}/memo-of-self", ok, "a memo is idempotent only if it caches a function of the object itself", node=fs.node, mod=fs.mod,
                    nontrivial=False)
     # the partial-updaters exception is checked, not just asserted
-    for nested in ("annotate.SpanUpdater.__init__.shift_offset", "annotate.SpanUpdater.__init__.replace_offset"):
-        if nested in eff.funcs:
-            ctx.ob("R-C15-3", f"{nested}/pure", not eff.tw[nested], "offset updaters are pure", node=eff.funcs[nested].node, mod=eff.funcs[nested].mod, nontrivial=False)
+    init = repo.func("annotate.SpanUpdater.__init__")
+    n_upd = 0
+    if init is not None:
+        am = repo.mod("annotate")
+        for c in walk_local(init):
+            if isinstance(c, ast.Call) and dotted(c.func) in ("partial", "functools.partial") and c.args:
+                f0 = c.args[0]
+                n_upd += 1
+                if isinstance(f0, ast.Lambda):
+                    pure = not any(isinstance(x, (ast.Call, ast.NamedExpr, ast.Await, ast.Yield)) and not (isinstance(x, ast.Call) and dotted(x.func) in ("min", "max", "len", "abs", "int"))
+                                   for x in ast.walk(f0.body))
+                    what = "lambda"
+                elif isinstance(f0, ast.Name) and f"annotate.SpanUpdater.__init__.{f0.id}" in eff.funcs:
+                    pure = not eff.tw[f"annotate.SpanUpdater.__init__.{f0.id}"]
+                    what = f0.id
+                else:
+                    pure, what = False, norm(f0)[:30]
+                ctx.ob("R-C15-3", f"annotate.SpanUpdater.__init__/updater:{what}:{n_upd}", pure, "offset updaters (the callables stored by partial) are pure", node=c, mod=am,
+                       nontrivial=False)
 
     # ---- R-C15-1 set order -----------------------------------------------------
     n_uses = 0
